@@ -19,6 +19,8 @@ type decTr struct {
 	g *goFile
 	// statements to drop: `x := getNetconfPatterns()` and the like (pure lookups)
 	dropAssignFrom map[string]bool
+	// inside the body of `go func() {...}()`: a bare return ends the goroutine, not the function
+	inGo bool
 }
 
 func (t *decTr) render(e ast.Expr) string {
@@ -189,6 +191,16 @@ func (t *decTr) stmt(s ast.Stmt) string {
 		if x.Tok == token.BREAK && x.Label == nil {
 			return "DBreak"
 		}
+	case *ast.GoStmt:
+		// go func() { body }(): the body runs once, as the body of a one-iteration loop `DRange "go" "once"`,
+		// so that a bare return inside it (DBreak) ends the goroutine and the caller's code goes on
+		// (the callers translated here wait at once for what the goroutine sends)
+		if fl, ok := x.Call.Fun.(*ast.FuncLit); ok && len(x.Call.Args) == 0 && !t.inGo {
+			t.inGo = true
+			body := t.stmts(fl.Body.List)
+			t.inGo = false
+			return "DRange " + q("go") + " " + q("once") + " " + body
+		}
 	case *ast.DeferStmt:
 		// defer f(...): recorded where it is registered
 		return "DCall " + q("defer "+t.render(x.Call))
@@ -209,6 +221,9 @@ func (t *decTr) stmt(s ast.Stmt) string {
 		}
 	case *ast.ReturnStmt:
 		if len(x.Results) == 0 {
+			if t.inGo {
+				return "DBreak"
+			}
 			return "DReturn " + q("")
 		}
 		if len(x.Results) == 1 {
